@@ -14,7 +14,7 @@ ASSUMPTIONS = [
 ]
 
 
-def line_groups(sc, tier, prefix, which=("group", "single")):
+def line_groups(sc, tier, prefix, which=("group", "single"), no_safety=True):
     ctx = common.prepare(sc)
     stub_le, used = common.stubs(sc, ["RadRate", "CS_FluorLine", "EdgeEnergy"], "lineenergy")
     stub_rr, used2 = common.stubs(sc, [], "radrate")
@@ -25,14 +25,16 @@ def line_groups(sc, tier, prefix, which=("group", "single")):
         return Group(prefix + ".K2.RadRate." + name, "K2", "lemma_RadRate", sources=["src/radrate.c"],
                      extra=["harness/h_lines.c", stub_rr, common.STATE], unwind=30,
                      backends=("cvc5",), canary_backends=("cvc5",), timeout=900, functions=["RadRate"],
-                     native_harness="harness/h_lines.c", stubs_used=used2, harness_defines=defs, expect_canaries=canaries)
+                     native_harness="harness/h_lines.c", stubs_used=used2, harness_defines=defs, expect_canaries=canaries,
+                     no_safety=no_safety)
 
-    def le(name, defs, canaries, attempt_only=False):
+    def le(name, defs, canaries, attempt_only=False, flags=()):
         return Group(prefix + ".K2.LineEnergy." + name, "K2", "lemma_LineEnergy", sources=["src/fluor_lines.c"],
                      extra=["harness/h_lines.c", stub_le, common.STATE], unwind=30, export_local=True,
                      backends=("cvc5",), canary_backends=("cvc5",), timeout=900,
                      functions=["LineEnergy", "LineEnergyComposed"], native_harness="harness/h_lines.c", stubs_used=used,
-                     harness_defines=defs, expect_canaries=canaries, attempt_only=attempt_only)
+                     harness_defines=defs, expect_canaries=canaries, attempt_only=attempt_only, flags=list(flags),
+                     no_safety=no_safety)
     if "group" in which:
         for m, c in (("KA_LINE", "RadRate KA"), ("KB_LINE", "RadRate KB"), ("LA_LINE", "RadRate LA"), ("LB_LINE", None)):
             gs.append(rr(m, ["-DFIXED_LINE=" + m], [c] if c else []))
@@ -46,7 +48,7 @@ def line_groups(sc, tier, prefix, which=("group", "single")):
             gs.append(le(m, ["-DFIXED_LINE=" + m], ["single line with a record"]))
     if "single" in which:
         gs.append(rr("single", [], ["Z out of range", "single line with a record", "single line without record"]))
-        gs.append(le("single", [], ["Z out of range", "single line with a record", "single line without record"]))
+        gs.append(le("single", [], ["Z out of range", "single line with a record", "single line without record"], flags=["--slice-formula"]))
     return gs
 
 
